@@ -84,3 +84,6 @@ META = {
              "Trusted: Coq kernel, extraction, drivers, Go harness, the translator (go/ast copy of the code strings and constants)."),
     'technique': 'Coq model + injectivity/characterisation theorems + induction over poll histories; translated code BOCs with vm_compute obligations (parse, pairwise distinct hashes); extracted-model correspondence against a scripted chain',
 }
+
+# ROUND-8-APPEND
+PROP['rule'] += " (0, run first so that every later case is answered afterwards) in-depth aliasing histories (c15_r8.go, oracle-only classes c15.history|deep|v*|<source>): for all 17 versions with a published code x 6 sources of a handed-out value (GetCodeByVer, GenerateStateInit, Wallet.StateInit(), the application's struct copy of it, the Init of NextMessageParams, StateInit() followed by a SendV2) x depth target (root / children / grand-children / deepest / one random non-root cell / all cells of code and data): record every answer (GenerateWalletAddress, hash of GenerateStateInit, GetWalletVersion on that code, GetAddress / hash(StateInit()) / hash(NextMessageParams(none).Init) / destination and attached init of the first SendV2 message for a fresh New(...) and for a Wallet object made earlier, GetCodeHashByVer, hash and BOC of GetCodeByVer, GetVerByCodeHash, read cursors of a freshly returned code cell) plus witness values obtained earlier through every API; the caller then reads through every reachable cell (cursors move) and writes into the target cells (append a bit / add a reference / reset and write): every answer and every witness must be unchanged (c15-deep-aliasing; cursor position of later code cells: c15-deep-cursors), every answer set must be coherent (address = hash of the state-init through every API, first message addressed to it and carrying the init that hashes to it: c15-deep-incoherent), and a closing c15.addr case per version is compared with the model (addr|after-deep-modification|v*)."
